@@ -12,13 +12,6 @@ import (
 
 // EncodeJSONFile 编码 JSON 文件
 func EncodeJSONFile(path string, obj interface{}) error {
-	f, err := os.OpenFile(path, os.O_CREATE|os.O_TRUNC|os.O_WRONLY, os.ModePerm)
-	if err != nil {
-		return err
-	}
-
-	defer f.Close()
-
 	var formatted bytes.Buffer
 	body, err := json.Marshal(obj)
 	if err != nil {
@@ -29,12 +22,24 @@ func EncodeJSONFile(path string, obj interface{}) error {
 		return err
 	}
 
-	if _, err := f.Write(formatted.Bytes()); err != nil {
-		return err
-	}
-	if err := f.Sync(); err != nil {
+	// 先完整写入临时文件再改名覆盖：
+	// 任何时刻进程退出，磁盘上要么是完整的旧文件，要么是完整的新文件
+	tmp := path + ".tmp"
+	f, err := os.OpenFile(tmp, os.O_CREATE|os.O_TRUNC|os.O_WRONLY, os.ModePerm)
+	if err != nil {
 		return err
 	}
 
-	return nil
+	if _, err = f.Write(formatted.Bytes()); err == nil {
+		err = f.Sync()
+	}
+	if cerr := f.Close(); err == nil {
+		err = cerr
+	}
+	if err != nil {
+		os.Remove(tmp)
+		return err
+	}
+
+	return os.Rename(tmp, path)
 }
